@@ -147,6 +147,12 @@ func enumerate(tier string, emit func(string)) {
 				for i := 0; i < nt; i++ {
 					for j := 0; j < nt; j++ {
 						if seps[s].text == "" && !emptySepLegal(tokens[i], tokens[j]) {
+							// two tokens written together although neither ends / starts with a delimiter: what
+							// the text denotes (one token, two, or an error) is the reader's business, but every
+							// delivery must agree with the whole-string read (mode bit 4: no denotation check)
+							if ctx <= 1 && trail == pairTrails[0] {
+								emit(mkSpec(ctx, 0, trail, defaultCfg, mode|4, []int{i, j}, []int{s}))
+							}
 							continue
 						}
 						emit(mkSpec(ctx, 0, trail, defaultCfg, mode, []int{i, j}, []int{s}))
@@ -234,7 +240,7 @@ func parseSpec(spec string) (cs caseSpec, err error) {
 	cs.trail = trails[num(p[2], len(trails))]
 	cs.c.base = num(p[3], 37)
 	cs.c.ff = p[4]
-	cs.mode = num(p[5], 4)
+	cs.mode = num(p[5], 8)
 	if p[6] != "" {
 		for _, s := range strings.Split(p[6], ",") {
 			cs.toks = append(cs.toks, tokens[num(s, len(tokens))])
@@ -318,7 +324,15 @@ func (r *run) all(mode int) {
 	}
 	wholeOK := whole.err == nil
 	badForm := map[int]bool{} // forms whose whole-string read is already wrong (S3: not re-reported per delivery)
-	if wholeOK && len(whole.objs) != len(t.forms) {
+	diffOnly := mode&4 != 0
+	if diffOnly {
+		res.Hit("check:differential-only")
+		if wholeOK {
+			res.Hit("differential-only:accepted")
+		} else {
+			res.Hit("differential-only:refused")
+		}
+	} else if wholeOK && len(whole.objs) != len(t.forms) {
 		// compare the forms both have, then name the first one that is missing
 		m := len(whole.objs)
 		if len(t.forms) < m {
@@ -367,7 +381,10 @@ func (r *run) all(mode int) {
 		r.fail("api=Read check=vs-ReadString kind="+k, d)
 	}
 
-	if wholeOK {
+	if wholeOK && diffOnly {
+		r.formAtATimeDiff(whole.objs)
+		r.lispRead(whole.objs)
+	} else if wholeOK {
 		r.formAtATime(whole.objs, badForm)
 		r.lispRead(whole.objs)
 	} else {
@@ -472,10 +489,10 @@ func (r *run) all(mode int) {
 				res.Hit("masked:stream-one-by-stream")
 			case k1 != "":
 				r.fail(fmt.Sprintf("api=ReadStream(one) cut-in=%s kind=%s", ctx, k1), "delivered as "+showCuts(src, cuts)+": "+d1)
-			case o.endPos != t.forms[0].end && k < t.forms[0].end && kind == "" && o.endPos == r.readOnePos0:
+			case !diffOnly && o.endPos != t.forms[0].end && k < t.forms[0].end && kind == "" && o.endPos == r.readOnePos0:
 				// same wrong position as ReadOne on the string: reported there (S3)
 				res.Hit("masked:stream-one-pos-by-ReadOne-pos")
-			case o.endPos != t.forms[0].end && k < t.forms[0].end && kind == "":
+			case !diffOnly && o.endPos != t.forms[0].end && k < t.forms[0].end && kind == "":
 				// the position is only comparable when the cut lies inside the first form or before it
 				r.fail(fmt.Sprintf("api=ReadStream(one) cut-in=%s check=pos form=%s delta=%s", ctx, t.forms[0].class, delta(o.endPos-t.forms[0].end)),
 					fmt.Sprintf("delivered as %s: position %d after the first form, it ends at %d", showCuts(src, cuts), o.endPos, t.forms[0].end))
@@ -546,7 +563,9 @@ func (r *run) all(mode int) {
 			"every cut alone reads correctly; delivered as "+showCuts(src, min)+": "+d2)
 	}
 
-	r.truncations()
+	if !diffOnly {
+		r.truncations()
+	}
 }
 
 // sameOutcome: same objects, or both an error of the same class.
@@ -641,6 +660,53 @@ func (r *run) wantString(want []*cv) string {
 // formAtATime: ReadOne loop and read-from-string, form by form. The next
 // read always starts at the generator's end offset of the previous form
 // (S3/S9), so one wrong position is reported once.
+// formAtATimeDiff reads one form at a time, each read continuing at the position the previous one reported, and
+// compares the objects with the whole-string read (used where the harness has no denotation of its own: the
+// reported positions are checked through the forms that follow).
+func (r *run) formAtATimeDiff(whole []*cv) {
+	c, src := r.c, r.t.src
+	off := 0
+	for i := 0; i <= len(whole); i++ {
+		obj, pos, got, err := readOneAt(src, off, c)
+		switch {
+		case err != nil:
+			o := outcome{err: err}
+			r.fail(fmt.Sprintf("api=ReadOne check=vs-ReadString kind=error:%s", o.errClass()),
+				fmt.Sprintf("ReadOne at offset %d (form %d): %s; ReadString gives %s", off, i, err.String(), showObjs(whole)))
+			return
+		case i == len(whole):
+			if got {
+				r.fail("api=ReadOne check=vs-ReadString kind=count:extra",
+					fmt.Sprintf("ReadOne at offset %d returned one more form %s; ReadString gives %s", off, obj, showObjs(whole)))
+			}
+			return
+		case !got:
+			r.fail("api=ReadOne check=vs-ReadString kind=count:missing",
+				fmt.Sprintf("ReadOne at offset %d returned no form; ReadString gives %s", off, showObjs(whole)))
+			return
+		}
+		if shape, _, _ := diff(whole[i], obj); shape != "" {
+			r.fail(fmt.Sprintf("api=ReadOne check=vs-ReadString kind=value:%s", shape),
+				fmt.Sprintf("ReadOne at offset %d (continuing at the position the previous read reported) returned %s, ReadString gives %s", off, obj, showObjs(whole)))
+			return
+		}
+		if pos <= off {
+			r.fail("api=ReadOne check=vs-ReadString kind=pos:not-advancing", fmt.Sprintf("ReadOne at offset %d reported position %d", off, pos))
+			return
+		}
+		r.res.Hit("check:pos-chained")
+		off = pos
+	}
+}
+
+func showObjs(objs []*cv) string {
+	var p []string
+	for _, o := range objs {
+		p = append(p, o.String())
+	}
+	return "[" + strings.Join(p, " ") + "]"
+}
+
 func (r *run) formAtATime(whole []*cv, badForm map[int]bool) {
 	t, c, src := r.t, r.c, r.t.src
 	off := 0
